@@ -10,14 +10,25 @@ pub type Entries = Vec<(String, Option<Vec<u8>>)>;
 /// else `$TMPDIR` / `/tmp`; removed on drop
 pub struct Scratch(pub std::path::PathBuf);
 impl Scratch {
-    pub fn new(tag: &str) -> Self {
-        let base = std::env::var("VERIF_TMP").ok().unwrap_or_else(|| {
+    /// the default base directory (see the type's comment)
+    pub fn default_base() -> String {
+        std::env::var("VERIF_TMP").ok().unwrap_or_else(|| {
             if Path::new("/dev/shm").is_dir() && std::fs::create_dir_all("/dev/shm/physis-verif").is_ok() {
                 "/dev/shm/physis-verif".to_string()
             } else {
-                std::env::var("TMPDIR").unwrap_or_else(|_| "/tmp".to_string())
+                Self::disk_base()
             }
-        });
+        })
+    }
+    /// a base directory on disk (`$TMPDIR` / `/tmp`)
+    pub fn disk_base() -> String {
+        std::env::var("TMPDIR").unwrap_or_else(|_| "/tmp".to_string())
+    }
+    pub fn new(tag: &str) -> Self {
+        Self::new_in(&Self::default_base(), tag)
+    }
+    pub fn new_in(base: &str, tag: &str) -> Self {
+        sweep_stale(base);
         let p = std::path::PathBuf::from(base).join(format!("physis-verif-{}-{}", std::process::id(), tag));
         let _ = std::fs::remove_dir_all(&p);
         std::fs::create_dir_all(&p).expect("cannot create scratch dir");
@@ -30,6 +41,30 @@ impl Scratch {
 impl Drop for Scratch {
     fn drop(&mut self) {
         let _ = std::fs::remove_dir_all(&self.0);
+    }
+}
+
+/// Once per process and base directory: remove scratch directories left behind by harness
+/// processes that no longer exist (a run stage killed on a timeout cannot clean up after itself;
+/// on tmpfs its files would keep occupying memory).
+fn sweep_stale(base: &str) {
+    static DONE: std::sync::Mutex<Vec<String>> = std::sync::Mutex::new(Vec::new());
+    {
+        let mut d = DONE.lock().unwrap();
+        if d.iter().any(|b| b == base) {
+            return;
+        }
+        d.push(base.to_string());
+    }
+    let Ok(rd) = std::fs::read_dir(base) else { return };
+    for e in rd.flatten() {
+        let name = e.file_name().to_string_lossy().to_string();
+        let Some(rest) = name.strip_prefix("physis-verif-") else { continue };
+        let Some((pid, _)) = rest.split_once('-') else { continue };
+        let Ok(pid) = pid.parse::<u32>() else { continue };
+        if pid != std::process::id() && !Path::new(&format!("/proc/{}", pid)).exists() {
+            let _ = std::fs::remove_dir_all(e.path());
+        }
     }
 }
 
@@ -86,6 +121,146 @@ pub fn fnv1a(bs: &[u8]) -> u64 {
     h
 }
 
+pub const FNV_BASIS: u64 = 0xcbf29ce484222325;
+pub const FNV_PRIME: u64 = 0x100000001b3;
+
+pub fn fnv1a_update(mut h: u64, bs: &[u8]) -> u64 {
+    for b in bs {
+        h = (h ^ *b as u64).wrapping_mul(FNV_PRIME);
+    }
+    h
+}
+
+/// FNV-1a over `n` zero bytes: each one maps h to (h xor 0)·prime, so the run multiplies the state
+/// by prime^n mod 2^64 (square and multiply)
+pub fn fnv1a_zeros(h: u64, mut n: u64) -> u64 {
+    let mut acc: u64 = 1;
+    let mut b = FNV_PRIME;
+    while n > 0 {
+        if n & 1 == 1 {
+            acc = acc.wrapping_mul(b);
+        }
+        b = b.wrapping_mul(b);
+        n >>= 1;
+    }
+    h.wrapping_mul(acc)
+}
+
+fn all_zero(bs: &[u8]) -> bool {
+    let (a, m, z) = unsafe { bs.align_to::<u128>() };
+    a.iter().all(|b| *b == 0) && m.iter().all(|w| *w == 0) && z.iter().all(|b| *b == 0)
+}
+
+unsafe extern "C" {
+    fn lseek(fd: i32, offset: i64, whence: i32) -> i64;
+}
+const SEEK_DATA: i32 = 3;
+const SEEK_HOLE: i32 = 4;
+
+/// `(length, FNV-1a 64)` of a file of any size — bit-identical to `fnv1a` on its bytes — without
+/// byte-wise work on zeros: holes are skipped with `lseek(SEEK_DATA / SEEK_HOLE)` where the file
+/// system reports them (tmpfs, ext4; a hole reads as zeros by definition), everything else is read
+/// in 4 MiB chunks and an all-zero chunk is folded in by `fnv1a_zeros`.  `use_seek = false` reads
+/// every byte (the fallback when the file system does not support the two whence values).
+pub fn fnv1a_file_opt(path: &Path, use_seek: bool) -> std::io::Result<(u64, u64)> {
+    use std::os::unix::fs::FileExt;
+    use std::os::unix::io::AsRawFd;
+    let f = std::fs::File::open(path)?;
+    let len = f.metadata()?.len();
+    let fd = f.as_raw_fd();
+    let mut seek_ok = use_seek;
+    let mut h = FNV_BASIS;
+    let mut pos: u64 = 0;
+    let mut buf = vec![0u8; 4 << 20];
+    while pos < len {
+        // [pos, data) is a hole, [data, end) is (possibly) data
+        let mut end = len;
+        if seek_ok {
+            let d = unsafe { lseek(fd, pos as i64, SEEK_DATA) };
+            if d < 0 {
+                let e = std::io::Error::last_os_error();
+                if e.raw_os_error() == Some(6) {
+                    // ENXIO: nothing but a hole up to the end of the file
+                    h = fnv1a_zeros(h, len - pos);
+                    break;
+                }
+                seek_ok = false;
+            } else {
+                let d = (d as u64).min(len);
+                if d > pos {
+                    h = fnv1a_zeros(h, d - pos);
+                    pos = d;
+                    if pos >= len {
+                        break;
+                    }
+                }
+                let e = unsafe { lseek(fd, pos as i64, SEEK_HOLE) };
+                if e < 0 {
+                    seek_ok = false;
+                } else if (e as u64) > pos {
+                    end = (e as u64).min(len);
+                }
+            }
+        }
+        while pos < end {
+            let want = ((end - pos) as usize).min(buf.len());
+            let n = f.read_at(&mut buf[..want], pos)?;
+            if n == 0 {
+                return Err(std::io::Error::new(std::io::ErrorKind::UnexpectedEof, "file shrank"));
+            }
+            if all_zero(&buf[..n]) {
+                h = fnv1a_zeros(h, n as u64);
+            } else {
+                h = fnv1a_update(h, &buf[..n]);
+            }
+            pos += n as u64;
+        }
+    }
+    Ok((len, h))
+}
+
+pub fn fnv1a_file(path: &Path) -> std::io::Result<(u64, u64)> {
+    fnv1a_file_opt(path, true)
+}
+
+/// files up to this size are read whole and hashed byte by byte, as always
+pub const STREAM_MIN: u64 = 1 << 20;
+
+/// canonical content of a file on disk (= `show_content` of its bytes)
+pub fn show_file(path: &Path) -> String {
+    let len = std::fs::metadata(path).map(|m| m.len()).unwrap_or(0);
+    if len <= STREAM_MIN {
+        return show_content(&std::fs::read(path).unwrap_or_default());
+    }
+    match fnv1a_file(path) {
+        Ok((len, h)) => format!("h{}.{:016x}", len, h),
+        Err(_) => "unreadable".to_string(),
+    }
+}
+
+/// Self-test of the hole-skipping hash on the given directory's file system: a 9 MiB file with
+/// data islands, zero-filled (written) stretches and holes, hashed three ways.
+pub fn fnv_selfcheck(dir: &Path) -> bool {
+    use std::os::unix::fs::FileExt;
+    let p = dir.join("fnv-selfcheck.bin");
+    let ok = (|| -> std::io::Result<bool> {
+        let f = std::fs::OpenOptions::new().write(true).create(true).truncate(true).open(&p)?;
+        f.write_all_at(&pattern(5000, 3), 100)?;
+        f.write_all_at(&vec![0u8; 300_000], (4 << 20) - 1000)?; // real zeros across a chunk boundary
+        f.write_all_at(&pattern(70_000, 9), (6 << 20) + 4095)?;
+        f.write_all_at(&[0u8, 0, 1], (9 << 20) - 3)?;
+        f.set_len((9 << 20) + 12345)?; // trailing hole
+        drop(f);
+        let plain = fnv1a(&std::fs::read(&p)?);
+        let a = fnv1a_file_opt(&p, true)?;
+        let b = fnv1a_file_opt(&p, false)?;
+        Ok(a == ((9 << 20) + 12345, plain) && b == a)
+    })()
+    .unwrap_or(false);
+    let _ = std::fs::remove_file(&p);
+    ok
+}
+
 pub fn show_content(d: &[u8]) -> String {
     if d.len() <= 32 {
         crate::util::hex(d)
@@ -94,7 +269,8 @@ pub fn show_content(d: &[u8]) -> String {
     }
 }
 
-fn walk(root: &Path, rel: &str, out: &mut Vec<(String, Option<Vec<u8>>)>) {
+/// `(relative path, is_dir)` of everything below `root`
+fn walk(root: &Path, rel: &str, out: &mut Vec<(String, bool)>) {
     let dir = if rel.is_empty() { root.to_path_buf() } else { root.join(rel) };
     let Ok(rd) = std::fs::read_dir(&dir) else { return };
     for e in rd.flatten() {
@@ -102,34 +278,43 @@ fn walk(root: &Path, rel: &str, out: &mut Vec<(String, Option<Vec<u8>>)>) {
         let r = if rel.is_empty() { name } else { format!("{}/{}", rel, name) };
         let Ok(meta) = e.metadata() else { continue };
         if meta.is_dir() {
-            out.push((r.clone(), None));
+            out.push((r.clone(), true));
             walk(root, &r, out);
         } else {
-            out.push((r.clone(), Some(std::fs::read(e.path()).unwrap_or_default())));
+            out.push((r.clone(), false));
         }
     }
 }
 
-pub fn snapshot(root: &Path) -> Entries {
+fn listing(root: &Path) -> Vec<(String, bool)> {
     let mut v = Vec::new();
     walk(root, "", &mut v);
     v.sort_by(|a, b| a.0.as_bytes().cmp(b.0.as_bytes()));
     v
 }
 
-/// canonical text: sorted by path bytes; directories as `path/` when `with_dirs`
+pub fn snapshot(root: &Path) -> Entries {
+    listing(root)
+        .into_iter()
+        .map(|(p, is_dir)| {
+            let c = if is_dir { None } else { Some(std::fs::read(root.join(&p)).unwrap_or_default()) };
+            (p, c)
+        })
+        .collect()
+}
+
+/// canonical text: sorted by path bytes; directories as `path/` when `with_dirs`; a file of any
+/// size (contents are not held in memory: see `show_file`)
 pub fn dump_tree(root: &Path, with_dirs: bool) -> String {
-    let v = snapshot(root);
-    let parts: Vec<String> = v
+    let parts: Vec<String> = listing(root)
         .iter()
-        .filter_map(|(p, c)| match c {
-            Some(d) => Some(format!("{}:{}", p, show_content(d))),
-            None => {
-                if with_dirs {
-                    Some(format!("{}/", p))
-                } else {
-                    None
-                }
+        .filter_map(|(p, is_dir)| {
+            if !*is_dir {
+                Some(format!("{}:{}", p, show_file(&root.join(p))))
+            } else if with_dirs {
+                Some(format!("{}/", p))
+            } else {
+                None
             }
         })
         .collect();
